@@ -68,7 +68,7 @@ func c11History(t *testing.T) (h c11Hist) {
 		ctx := context.Background()
 		now := time.Now()
 		h.states = append(h.states, "")
-		a := &pb.Silence{MatcherSets: vMatchersA(), StartsAt: ts(now), EndsAt: ts(now.Add(30 * time.Minute)), Comment: "first", CreatedBy: "é😀"}
+		a := &pb.Silence{MatcherSets: vMatchersA(), StartsAt: ts(now), EndsAt: ts(now.Add(30 * time.Minute)), Comment: "first", CreatedBy: "é😀", Annotations: map[string]string{"owner": "ops", "ticket": "7"}}
 		b := &pb.Silence{MatcherSets: vMatchersA(), StartsAt: ts(now.Add(time.Minute)), EndsAt: ts(now.Add(40 * time.Minute)), Comment: "second"}
 		if err := s.Set(ctx, a); err != nil {
 			panic(err)
@@ -84,7 +84,7 @@ func c11History(t *testing.T) (h c11Hist) {
 		{
 			c.Id = "cccccccc-0000-4000-8000-00000000000c"
 			c.UpdatedAt = ts(time.Now())
-			mb, err := marshalMeshSilence(&pb.MeshSilence{Silence: c, ExpiresAt: ts(c.EndsAt.AsTime().Add(time.Hour))})
+			mb, err := vMarshalMesh(&pb.MeshSilence{Silence: c, ExpiresAt: ts(c.EndsAt.AsTime().Add(time.Hour))})
 			if err != nil {
 				panic(err)
 			}
@@ -109,7 +109,7 @@ func c11History(t *testing.T) (h c11Hist) {
 			nb.EndsAt = ts(time.Now().Add(90 * time.Minute))
 			nb.UpdatedAt = ts(time.Now())
 			nb.Comment = "extended elsewhere"
-			mb, err := marshalMeshSilence(&pb.MeshSilence{Silence: nb, ExpiresAt: ts(nb.EndsAt.AsTime().Add(time.Hour))})
+			mb, err := vMarshalMesh(&pb.MeshSilence{Silence: nb, ExpiresAt: ts(nb.EndsAt.AsTime().Add(time.Hour))})
 			if err != nil {
 				panic(err)
 			}
@@ -360,7 +360,7 @@ func TestVerifC11Silences(t *testing.T) {
 		old := &pb.MeshSilence{Silence: &pb.Silence{Id: "legacy", Matchers: vMatchersA()[0].Matchers, StartsAt: ts(time.Unix(1e9, 0)), EndsAt: ts(time.Unix(2e9, 0)), UpdatedAt: ts(time.Unix(1e9, 0)),
 			Comments: []*pb.Comment{{Author: "me", Comment: "old style"}}}, ExpiresAt: ts(time.Unix(3e9, 0))}
 		var buf bytes.Buffer
-		if b, err := marshalMeshSilence(old); err == nil {
+		if b, err := vMarshalMesh(old); err == nil {
 			buf.Write(b)
 		}
 		fsys := vfs.NewFS()
